@@ -4,35 +4,45 @@ C26 — Generated adapter stubs compile for every valid schema.
 "For any valid schema whose properties use the built-in scalar types, the generated adapter stub is valid
 Rust that compiles (including its tests) against the trustfall crate."
 
-What is proved here is the *naming logic* of `trustfall_stubgen` (model: `Model/Stubgen.lean`): which item
-names the generator derives from the schema's type / property / edge / parameter / entry-point names, that
-they are identifiers, that its two conflict checks make the names it is responsible for pairwise distinct,
-and where — position by position — this fails on the pinned code.
+What is proved here is the *naming logic* of `trustfall_stubgen` (model: `Model/Stubgen.lean`, the code
+with the repairs R1–R4): which item names the generator derives from the schema's type / property /
+edge / parameter / entry-point names, that they are identifiers, and that its three conflict checks make
+the generated names pairwise distinct in every Rust namespace.
 
 TRUSTED GAP (not modelled, stated in the evidence): that rustc accepts the `quote!` templates once every
 spliced name is a distinct, usable identifier.  That part is *sampled* by the harness' compile oracle
 (`cargo test --no-run --offline` on generated stubs).
 
-The full property is violated by the pinned code at several name positions; each such position has the full
-statement in a comment, a `_partial` theorem under an explicit decidable guard, and a witness theorem:
-* parameter names are spliced verbatim (F-26: a parameter called `match` → generator panics);
-* `escaped_rust_name` lacks the reserved keywords (`abstract become box do final macro override priv typeof
-  unsized virtual yield`) and cannot help with `_`;
-* `Vertex` variants are derived with `upper_case_variant_name` but checked with `to_lower_snake_case`
-  (`fOO` / `FOO`);
-* entry point functions are not conflict-checked at all (`fooBar` / `foo_bar`);
-* the edge resolvers call `as_<stubgen snake>()` while the derive macro defines `as_<derive snake>()`
-  (`UserID`);
-* parameters may collide with bindings of the templates, items with their imports.
+What is still open on the code (witness theorems below, known findings F-C26-3, -7, -8):
+* a parameter of the built-in scalar type `ID` makes the generator panic (`unimplemented!`);
+* a parameter identifier can collide with a binding of the templates (`contexts` on an edge,
+  `_resolve_info`, `resolve_info`, `parameters` followed by another parameter) or — after escaping — with
+  another parameter of the same edge (`type` and `type_`): `paramBindingClash` is the exact list;
+* a generated item can shadow an import of the generated file (module `trustfall`, function
+  `resolve_neighbors_with`).
+
+History (fixed by R1–R4; the witnesses were theorems of the previous revision of this file):
+* F-26: parameter names were spliced verbatim — `e(match: Int)` made the generator panic
+  (`parameter_keyword_witness`); now `names_are_identifiers_parameter`.
+* F-C26-2: `escaped_rust_name` lacked `abstract become box do final macro override priv typeof unsized
+  virtual yield` and `_` — edge `yield`, type `Do` with edges, type `_` made it panic
+  (`item_reserved_keyword_witness`, `variant_underscore_witness`); now `names_are_identifiers_item`,
+  `names_are_identifiers_variant`, `no_pretty_print_panic`.
+* F-C26-4: the vertex check compared snake-cased names only — `fOO` / `FOO` passed with two variants `FOO`
+  (`variant_collision_witness`); now `variant_names_distinct`, `conversion_def_names_distinct`.
+* F-C26-5: entry points were not checked — `fooBar` / `foo_bar` (`entrypoint_collision_witness`); now
+  `entrypoint_names_distinct`, `checks_catch_entrypoint_collisions`.
+* F-C26-6: the resolvers called `as_<stubgen snake>()` — `UserID` gave `as_user_id` vs `as_user_i_d`
+  (`conversion_mismatch_witness`); now `conversion_names_agree`.
 -/
 import TrustfallModel.Proofs.Stubgen
 
 namespace TF.C26
 open TF.Stubgen
 
-/-! ## 1. Generated names are identifiers, per name position -/
+/-! ## 1. Generated names are identifiers, at every name position -/
 
-/-- Position "property resolver of a type" (`resolve_<snake>_property`): always a usable identifier. -/
+/-- Position "property resolver of a type" (`resolve_<snake>_property`). -/
 theorem names_are_identifiers_property_fn (n : Name) (h : validGraphQLName n = true) :
     usableIdent (propertyFnName n) = true := by
   apply usableIdent_intro
@@ -44,8 +54,7 @@ theorem names_are_identifiers_property_fn (n : Name) (h : validGraphQLName n = t
     have h2 : sfxProperty.length = 9 := by decide
     omega
 
-/-- Position "edge resolver of a type" (`resolve_<snake>_edge`), as called and as defined: always a usable
-identifier. -/
+/-- Position "edge resolver of a type" (`resolve_<snake>_edge`), as called and as defined. -/
 theorem names_are_identifiers_type_edge_fn (n : Name) (h : validGraphQLName n = true) :
     usableIdent (typeEdgeFnName n) = true ∧ usableIdent (typeEdgeFnNameDef n) = true := by
   have key : ∀ x : Name, identShape x = true → usableIdent (pfxResolve ++ x ++ sfxEdge) = true := by
@@ -65,106 +74,91 @@ snake-cases twice). -/
 theorem edge_fn_names_agree (n : Name) : typeEdgeFnNameDef n = typeEdgeFnName n := by
   simp [typeEdgeFnNameDef, typeEdgeFnName, snake_idempotent]
 
-/-- Position "conversion method called by the edge resolvers" (`as_<snake of the variant>`): always a
-usable identifier.  (Whether the derive macro *defines* a method of that name is
-`conversion_names_agree_partial`.) -/
+/-- Position "conversion method called by the edge resolvers" (`variant_conversion_fn_name`). -/
 theorem names_are_identifiers_conversion (n : Name) (h : validGraphQLName n = true) :
     usableIdent (conversionCallName n) = true := by
-  simp only [usableIdent, Bool.and_eq_true, Bool.not_eq_true']
-  constructor
+  apply usableIdent_intro
   · have := identShape_wrap (pre := pfxAs) (suf := []) (by decide) (by decide)
-      (all_continue_of_identShape (snake_identShape (variant_identShape h)))
-    simpa [conversionCallName] using this
+      (conversionGo_all_continue '_' _ (all_continue_of_identShape (variant_identShape h)))
+    simpa [conversionCallName, variantConversionFnName] using this
   · cases hc : synReject.contains (conversionCallName n) with
     | false => rfl
     | true =>
       have := synReject_no_as_prefix _ (by simpa using hc)
-      exact absurd (by simp [conversionCallName, pfxAs]) this
+      exact absurd (by simp [conversionCallName, variantConversionFnName, pfxAs]) this
 
-/-
-Full statement (false on the pinned code):
-  `validGraphQLName n → usableIdent (variantName n)`.
-`_` is a GraphQL name, `upper_case_variant_name` and `escaped_rust_name` leave it alone, and `_` is not an
-identifier.
--/
-/-- Position "`Vertex` variant of a type": a usable identifier unless the type is called `_`. -/
-theorem names_are_identifiers_variant_partial (n : Name) (h : validGraphQLName n = true) (hn : n ≠ ['_']) :
+/-- Position "`Vertex` variant of a type" (`escaped_rust_name(upper_case_variant_name(name))`). -/
+theorem names_are_identifiers_variant (n : Name) (h : validGraphQLName n = true) :
     usableIdent (variantName n) = true := by
-  simp only [usableIdent, Bool.and_eq_true, Bool.not_eq_true']
-  refine ⟨variant_identShape h, ?_⟩
+  apply usableIdent_intro (variant_identShape h)
   cases n with
   | nil => simp [validGraphQLName, identShape] at h
-  | cons c cs =>
-    simp only [variantName, upperCaseVariantName]
-    apply escape_not_rejected
-    cases hu : unescapedReserved.contains (toAsciiUpper c :: cs) with
-    | false => rfl
-    | true =>
-      have hm : (toAsciiUpper c :: cs) ∈ unescapedReserved := by simpa using hu
-      have := List.all_eq_true.mp unescapedReserved_heads _ hm
-      simp only [Bool.or_eq_true, beq_iff_eq] at this
-      rcases this with h1 | h1
-      · -- the variant is `_`: then so is the type name
-        have hc : toAsciiUpper c = '_' := by simpa using (List.cons.inj h1).1
-        have hcs : cs = [] := (List.cons.inj h1).2
-        have : c = '_' := by
-          cases hl : isLower c with
-          | false => rw [toAsciiUpper_of_not_lower hl] at hc; exact hc
-          | true =>
-            have h2 := toNat_toAsciiUpper_of_lower hl
-            have h3 := (isLower_iff c).mp hl
-            rw [hc] at h2
-            have : ('_' : Char).toNat = 95 := by decide
-            omega
-        exact absurd (by rw [this, hcs]) hn
-      · rw [isLower_toAsciiUpper] at h1; cases h1
+  | cons c cs => exact escape_not_rejected _
 
-theorem variant_underscore_witness :
-    validGraphQLName ['_'] = true ∧ usableIdent (variantName ['_']) = false := by decide
-
-/-
-Full statement (false on the pinned code):
-  `validGraphQLName n → usableIdent (itemFnName n)`  (edge function, entry point function, per-type module).
--/
-/-- Positions "edge resolver function", "entry point function", "per-type module" (all are
-`escaped_rust_name(to_lower_snake_case(name))`): a usable identifier unless the snake-cased name is `_` or
-one of the reserved keywords missing from `escaped_rust_name`'s table. -/
-theorem names_are_identifiers_item_partial (n : Name) (h : validGraphQLName n = true)
-    (hg : unescapedReserved.contains (toLowerSnakeCase n) = false) :
+/-- Positions "edge resolver function", "entry point function", "per-type module"
+(`escaped_rust_name(to_lower_snake_case(name))`). -/
+theorem names_are_identifiers_item (n : Name) (h : validGraphQLName n = true) :
     usableIdent (itemFnName n) = true ∧ usableIdent (edgeModName n) = true := by
-  have : usableIdent (escapedRustName (toLowerSnakeCase n)) = true := by
-    simp only [usableIdent, Bool.and_eq_true, Bool.not_eq_true']
-    exact ⟨escape_identShape (snake_identShape h), escape_not_rejected hg⟩
+  have : usableIdent (escapedRustName (toLowerSnakeCase n)) = true :=
+    usableIdent_intro (escape_identShape (snake_identShape h)) (escape_not_rejected _)
   exact ⟨this, this⟩
 
-/-- `yield` as an edge name, `Do` as the name of a type with edges: valid GraphQL names whose generated
-function / module name is a reserved keyword. -/
-theorem item_reserved_keyword_witness :
-    validGraphQLName "yield".toList = true ∧ usableIdent (itemFnName "yield".toList) = false ∧
-    validGraphQLName "Do".toList = true ∧ usableIdent (edgeModName "Do".toList) = false := by decide
+/-- Position "edge / entry point parameter" (`escaped_rust_name(parameter_name)`): always a usable
+identifier.  What remains excluded for parameters is not about being an identifier: the identifier may
+collide with a binding of the template or with another parameter — exactly `paramBindingClash`
+(F-C26-7, see `parameter_binding_witnesses`). -/
+theorem names_are_identifiers_parameter (n : Name) (h : validGraphQLName n = true) :
+    usableIdent (paramIdent n) = true :=
+  usableIdent_intro (escape_identShape h) (escape_not_rejected _)
 
-/-
-Full statement (false on the pinned code — F-26):
-  `validGraphQLName n → usableParamIdent b n`  (parameter names are spliced into the templates verbatim).
--/
-/-- Position "edge / entry point parameter": usable when the name is not a keyword. -/
-theorem names_are_identifiers_parameter_partial (n : Name) (b : Bool) (h : validGraphQLName n = true)
-    (hg : synReject.contains n = false) : usableParamIdent b n = true := by
-  simp only [usableParamIdent, Bool.and_eq_true, Bool.or_eq_true, Bool.not_eq_true']
-  exact ⟨h, Or.inl (Or.inl hg)⟩
+/-- every name of the schema is a GraphQL name -/
+def validNames (S : Schema) : Prop :=
+  (∀ t ∈ S.types, validGraphQLName t.name = true ∧
+    ∀ e ∈ t.edges, validGraphQLName e.name = true ∧ ∀ p ∈ e.params, validGraphQLName p.name = true) ∧
+  (∀ e ∈ S.entrypoints, validGraphQLName e.name = true ∧ ∀ p ∈ e.params, validGraphQLName p.name = true)
 
-/-- The schema `type A { x: Int  e(match: Int): [A!] }` with entry point `A`. -/
-def f26Schema : Schema where
-  entrypoints := [⟨"A".toList, []⟩]
-  types := [⟨"A".toList, ["x".toList], [⟨"e".toList, [⟨"match".toList, "Int".toList⟩]⟩]⟩]
+/-- Every identifier spliced into the templates is one `syn` accepts. -/
+theorem spliced_idents_usable (S : Schema) (hv : validNames S) : ∀ n ∈ splicedIdents S, usableIdent n = true := by
+  obtain ⟨ht, he⟩ := hv
+  intro n hn
+  simp only [splicedIdents, List.mem_append, List.mem_map, List.mem_flatMap, List.mem_cons] at hn
+  rcases hn with (⟨t, htm, rfl⟩ | ⟨e, hem, hn⟩) | ⟨t, htm, hn⟩
+  · exact names_are_identifiers_variant _ (ht t htm).1
+  · rcases hn with rfl | ⟨p, hp, rfl⟩
+    · exact (names_are_identifiers_item _ (he e hem).1).1
+    · exact names_are_identifiers_parameter _ ((he e hem).2 p hp)
+  · rcases hn with hn | hn
+    · split at hn
+      · simp at hn
+      · simp only [List.mem_singleton] at hn; subst hn
+        exact names_are_identifiers_property_fn _ (ht t htm).1
+    · split at hn
+      · simp at hn
+      · simp only [List.mem_cons, List.mem_flatMap, List.mem_map] at hn
+        rcases hn with rfl | rfl | rfl | ⟨e, hem, hn⟩
+        · exact (names_are_identifiers_type_edge_fn _ (ht t htm).1).2
+        · exact (names_are_identifiers_item _ (ht t htm).1).2
+        · exact names_are_identifiers_conversion _ (ht t htm).1
+        · rcases hn with rfl | ⟨p, hp, rfl⟩
+          · exact (names_are_identifiers_item _ ((ht t htm).2 e hem).1).1
+          · exact names_are_identifiers_parameter _ (((ht t htm).2 e hem).2 p hp)
 
-/-- F-26: an edge parameter named `match` (a valid GraphQL name) makes the generator panic while it
-pretty-prints the generated items ("not valid Rust"). -/
-theorem parameter_keyword_witness :
-    validGraphQLName "match".toList = true ∧ checksPass f26Schema = true ∧
-      stubCheck f26Schema = .panicPrettyPrint := by decide
+/-- For a schema with GraphQL names the generator never panics while pretty-printing ("not valid Rust"):
+F-26 and F-C26-2 are gone. -/
+theorem no_pretty_print_panic (S : Schema) (hv : validNames S) : stubCheck S ≠ .panicPrettyPrint := by
+  have hall : (splicedIdents S).all usableIdent = true := List.all_eq_true.mpr (spliced_idents_usable S hv)
+  unfold stubCheck
+  split
+  · simp
+  · split
+    · simp
+    · split
+      · simp
+      · split
+        · simp
+        · simp [hall]
 
-/-- A parameter of the built-in scalar type `ID` makes the generator panic (`unimplemented!`). -/
+/-- Still open (F-C26-3): a parameter of the built-in scalar type `ID` makes the generator panic. -/
 theorem parameter_type_id_witness :
     stubCheck { entrypoints := [⟨"A".toList, []⟩],
                 types := [⟨"A".toList, ["x".toList], [⟨"e".toList, [⟨"k".toList, "ID".toList⟩]⟩]⟩] }
@@ -185,12 +179,26 @@ theorem checks_catch_collisions (S : Schema) (i j : Nat) (hi : i < S.types.lengt
   cases hc : checksPass S with
   | false => rfl
   | true =>
-    have hn := ((checksPass_iff S).mp hc).1
+    have hn := (vertexKeys_components ((checksPass_iff S).mp hc).1).1
+    rw [List.map_map] at hn
     have := nodup_getElem_inj hn (i := i) (j := j) (by simpa using hi) (by simpa using hj)
       (by simp [conflictKey, h])
     exact absurd this hij
 
-/-- … and the field check any two fields (edges and properties together) of one vertex type. -/
+/-- … or whose `Vertex` variants coincide (names differing in the case of the first letter only) … -/
+theorem checks_catch_variant_collisions (S : Schema) (i j : Nat) (hi : i < S.types.length)
+    (hj : j < S.types.length) (hij : i ≠ j) (h : variantName S.types[i].name = variantName S.types[j].name) :
+    checksPass S = false := by
+  cases hc : checksPass S with
+  | false => rfl
+  | true =>
+    have hn := (vertexKeys_components ((checksPass_iff S).mp hc).1).2.1
+    rw [List.map_map] at hn
+    have := nodup_getElem_inj hn (i := i) (j := j) (by simpa using hi) (by simpa using hj)
+      (by simp [h])
+    exact absurd this hij
+
+/-- … the field check any two fields (edges and properties together) of one vertex type … -/
 theorem checks_catch_field_collisions (S : Schema) (t : VType) (ht : t ∈ S.types) (i j : Nat)
     (hi : i < (fieldNames t).length) (hj : j < (fieldNames t).length) (hij : i ≠ j)
     (h : toLowerSnakeCase (fieldNames t)[i] = toLowerSnakeCase (fieldNames t)[j]) :
@@ -198,105 +206,120 @@ theorem checks_catch_field_collisions (S : Schema) (t : VType) (ht : t ∈ S.typ
   cases hc : checksPass S with
   | false => rfl
   | true =>
-    have hn := ((checksPass_iff S).mp hc).2 t ht
+    have hn := ((checksPass_iff S).mp hc).2.1 t ht
     have := nodup_getElem_inj hn (i := i) (j := j) (by simpa using hi) (by simpa using hj)
       (by simp [conflictKey, h])
     exact absurd this hij
 
-/-- When both checks pass, the generated item names the checks are responsible for are pairwise distinct
-in each Rust namespace: the per-type property resolvers (properties.rs), the per-type edge resolvers and
-the per-type modules (edges.rs), and inside each type's module the per-edge functions. -/
+/-- … and the entry point check any two entry points. -/
+theorem checks_catch_entrypoint_collisions (S : Schema) (i j : Nat) (hi : i < S.entrypoints.length)
+    (hj : j < S.entrypoints.length) (hij : i ≠ j)
+    (h : toLowerSnakeCase S.entrypoints[i].name = toLowerSnakeCase S.entrypoints[j].name) :
+    checksPass S = false := by
+  cases hc : checksPass S with
+  | false => rfl
+  | true =>
+    have hn := ((checksPass_iff S).mp hc).2.2
+    have := nodup_getElem_inj hn (i := i) (j := j) (by simpa using hi) (by simpa using hj)
+      (by simp [conflictKey, h])
+    exact absurd this hij
+
+/-- The `as_…()` method an edge resolver calls is the one the derive macro defines. -/
+theorem conversion_names_agree (t : Name) : conversionCallName t = conversionDefName t := by
+  simp [conversionCallName, conversionDefName, variantConversionFnName, deriveSnake,
+    conversionGo_eq_deriveSnakeGo]
+
+/-- The `Vertex` variants are pairwise distinct when the checks pass. -/
+theorem variant_names_distinct (S : Schema) (h : checksPass S = true) :
+    (S.types.map fun t => variantName t.name).Nodup := by
+  have := (vertexKeys_components ((checksPass_iff S).mp h).1).2.1
+  simpa [List.map_map, Function.comp_def] using this
+
+/-- The conversion methods the derive macro generates are pairwise distinct when the checks pass. -/
+theorem conversion_def_names_distinct (S : Schema) (h : checksPass S = true) :
+    (S.types.map fun t => conversionDefName t.name).Nodup := by
+  have := (vertexKeys_components ((checksPass_iff S).mp h).1).2.2
+  simpa [List.map_map, Function.comp_def, conversion_names_agree] using this
+
+/-- The entry point functions are pairwise distinct when the checks pass. -/
+theorem entrypoint_names_distinct (S : Schema) (h : checksPass S = true) :
+    (S.entrypoints.map fun e => itemFnName e.name).Nodup :=
+  ((checksPass_iff S).mp h).2.2
+
+/-- When the checks pass, the generated item names are pairwise distinct in each Rust namespace: the
+per-type property resolvers (properties.rs), the per-type edge resolvers and the per-type modules
+(edges.rs), inside each type's module the per-edge functions, the `Vertex` variants (vertex.rs), the
+derive-generated conversion methods, and the entry point functions (entrypoints.rs). -/
 theorem no_conflict_names_distinct (S : Schema) (h : checksPass S = true) :
     (S.types.map fun t => propertyFnName t.name).Nodup ∧
     (S.types.map fun t => typeEdgeFnName t.name).Nodup ∧
     (S.types.map fun t => edgeModName t.name).Nodup ∧
-    ∀ t ∈ S.types, (t.edges.map fun e => itemFnName e.name).Nodup := by
-  obtain ⟨hv, hf⟩ := (checksPass_iff S).mp h
-  refine ⟨?_, ?_, hv, ?_⟩
+    (∀ t ∈ S.types, (t.edges.map fun e => itemFnName e.name).Nodup) ∧
+    (S.types.map fun t => variantName t.name).Nodup ∧
+    (S.types.map fun t => conversionDefName t.name).Nodup ∧
+    (S.entrypoints.map fun e => itemFnName e.name).Nodup := by
+  obtain ⟨hv, hf, _⟩ := (checksPass_iff S).mp h
+  have hk : (S.types.map fun t => conflictKey t.name).Nodup := by
+    simpa [List.map_map, Function.comp_def] using (vertexKeys_components hv).1
+  refine ⟨?_, ?_, hk, ?_, variant_names_distinct S h, conversion_def_names_distinct S h,
+    entrypoint_names_distinct S h⟩
   · exact nodup_map_of_nodup_map (f := fun t => conflictKey t.name)
-      (fun x y hxy => snake_eq_of_key_ne (wrap_injective hxy)) hv
+      (fun x y hxy => snake_eq_of_key_ne (wrap_injective hxy)) hk
   · exact nodup_map_of_nodup_map (f := fun t => conflictKey t.name)
-      (fun x y hxy => snake_eq_of_key_ne (wrap_injective hxy)) hv
+      (fun x y hxy => snake_eq_of_key_ne (wrap_injective hxy)) hk
   · intro t ht
     have := hf t ht
     simp only [fieldNames, List.map_append, List.map_map] at this
     exact (List.nodup_append.mp this).1
 
-/-! ### `Vertex` variants: checked with the wrong function -/
+/-! ## 3. What is still open at the name level -/
 
-/-
-Full statement (false on the pinned code):
-  `checksPass S → (S.types.map (variantName ·.name)).Nodup`.
--/
-/-- The `Vertex` variants are pairwise distinct when both checks pass — provided no type name has a capital
-letter in second position (the check compares snake-cased names, the variants only capitalise the first
-letter). -/
-theorem variant_names_distinct_partial (S : Schema) (hv : ∀ t ∈ S.types, validGraphQLName t.name = true)
-    (hg : ∀ t ∈ S.types, secondNotUpper t.name = true) (h : checksPass S = true) :
-    (S.types.map fun t => variantName t.name).Nodup :=
-  nodup_map_of_nodup_map_mem (f := fun t => conflictKey t.name)
-    (fun x hx y hy hxy => key_eq_of_variant_eq (hv x hx) (hv y hy) (hg x hx) (hg y hy) hxy)
-    ((checksPass_iff S).mp h).1
-
-/-- `fOO` and `FOO`: both checks pass, yet the two `Vertex` variants are both called `FOO`. -/
-theorem variant_collision_witness :
-    let S : Schema := { entrypoints := [], types := [⟨"fOO".toList, ["x".toList], []⟩, ⟨"FOO".toList, ["x".toList], []⟩] }
-    checksPass S = true ∧ stubCheck S = .ok ∧ variantName "fOO".toList = variantName "FOO".toList := by
+/-- Still open (F-C26-7): each way a parameter identifier can clash, on a one-edge schema; the generator
+succeeds (`stubCheck = ok`) and the model predicts a compile error. -/
+theorem parameter_binding_witnesses :
+    let S (ps : List Name) : Schema :=
+      { entrypoints := [⟨"A".toList, []⟩],
+        types := [⟨"A".toList, ["x".toList], [⟨"e".toList, ps.map fun p => ⟨p, "Int".toList⟩⟩]⟩] }
+    (∀ ps ∈ [["contexts".toList], ["_resolve_info".toList], ["resolve_info".toList],
+              ["parameters".toList, "z".toList], ["type".toList, "type_".toList]],
+        stubCheck (S ps) = .ok ∧ compileCauses (S ps) = [.paramBinding]) ∧
+    -- … while a keyword parameter, `_`, and a trailing `parameters` are fine now
+    predictCompiles (S ["match".toList, "self".toList, "_".toList, "parameters".toList]) = true := by
   decide
 
-/-! ### Entry points: not checked at all -/
-
-/-- `fooBar` and `foo_bar` as entry points: the checks pass, the generator succeeds, and entrypoints.rs
-defines `foo_bar` twice. -/
-theorem entrypoint_collision_witness :
-    let S : Schema := { entrypoints := [⟨"fooBar".toList, []⟩, ⟨"foo_bar".toList, []⟩],
-                        types := [⟨"A".toList, ["x".toList], []⟩] }
-    checksPass S = true ∧ stubCheck S = .ok ∧
-      itemFnName "fooBar".toList = itemFnName "foo_bar".toList ∧
-      compileCauses S = [.duplicateEntrypointFn] := by
-  decide
-
-/-! ## 3. The conversion method: two different snake cases -/
-
-/-
-Full statement (false on the pinned code):
-  `conversionCallName t = conversionDefName t`  (the method the edge resolvers call exists).
--/
-/-- The `as_…()` method an edge resolver calls is the one the derive macro defines, provided the variant
-name has no two consecutive capital letters. -/
-theorem conversion_names_agree_partial (t : Name) (h : noConsecutiveCapitals (variantName t) = true) :
-    conversionCallName t = conversionDefName t := by
-  simp [conversionCallName, conversionDefName, snake_eq_deriveSnake h]
-
-/-- `UserID`: the resolver calls `as_user_id()`, the derive macro defines `as_user_i_d()`. -/
-theorem conversion_mismatch_witness :
-    conversionCallName "UserID".toList = "as_user_id".toList ∧
-    conversionDefName "UserID".toList = "as_user_i_d".toList := by decide
+/-- Still open (F-C26-8): a module called `trustfall`, an edge function called `resolve_neighbors_with`. -/
+theorem import_collision_witnesses :
+    compileCauses { entrypoints := [⟨"A".toList, []⟩],
+                    types := [⟨"Trustfall".toList, ["x".toList], [⟨"e".toList, []⟩]⟩, ⟨"A".toList, ["x".toList], []⟩] }
+      = [.importCollision] ∧
+    compileCauses { entrypoints := [⟨"A".toList, []⟩],
+                    types := [⟨"A".toList, ["x".toList], [⟨"resolve_neighbors_with".toList, []⟩]⟩] }
+      = [.importCollision] := by decide
 
 /-! ## 4. What the model's `compiles` prediction guarantees -/
 
 /-- Whenever the model predicts that a stub compiles, every name-level obligation holds: the generator
-does not refuse or panic, every spliced item name and parameter name is accepted by `syn`, and in each
-namespace the generated names are pairwise distinct (variants, entry point functions, property resolvers,
-edge resolvers, modules, per-module edge functions, derive-generated conversion methods), and every
-conversion method that is called is defined. -/
+does not refuse or panic, every spliced item name and parameter name is accepted by `syn`, the generated
+names are pairwise distinct in every namespace, every conversion method that is called is defined, and no
+parameter list clashes with the templates' bindings. -/
 theorem predictCompiles_sound (S : Schema) (h : predictCompiles S = true) :
     stubCheck S = .ok ∧ checksPass S = true ∧
     (∀ n ∈ splicedIdents S, usableIdent n = true) ∧
-    (S.types.map fun t => variantName t.name).Nodup ∧
-    (S.types.map fun t => conversionDefName t.name).Nodup ∧
-    (S.entrypoints.map fun e => itemFnName e.name).Nodup ∧
     (S.types.map fun t => propertyFnName t.name).Nodup ∧
     (S.types.map fun t => typeEdgeFnName t.name).Nodup ∧
     (S.types.map fun t => edgeModName t.name).Nodup ∧
     (∀ t ∈ S.types, (t.edges.map fun e => itemFnName e.name).Nodup) ∧
-    (∀ t ∈ S.types, t.edges ≠ [] → conversionCallName t.name = conversionDefName t.name) := by
+    (S.types.map fun t => variantName t.name).Nodup ∧
+    (S.types.map fun t => conversionDefName t.name).Nodup ∧
+    (S.entrypoints.map fun e => itemFnName e.name).Nodup ∧
+    (∀ t ∈ S.types, conversionCallName t.name = conversionDefName t.name) ∧
+    (∀ e ∈ S.entrypoints, paramBindingClash false e.params = false) ∧
+    (∀ t ∈ S.types, ∀ e ∈ t.edges, paramBindingClash true e.params = false) := by
   simp only [predictCompiles, Bool.and_eq_true, List.isEmpty_iff] at h
   obtain ⟨hok, hcauses⟩ := h
   have hok' : stubCheck S = .ok := by
     cases hs : stubCheck S <;> simp [hs] at hok
     rfl
-  -- unfold the outcome
   have hcp : checksPass S = true ∧ (∀ n ∈ splicedIdents S, usableIdent n = true) := by
     unfold stubCheck at hok'
     cases hvc : vertexConflict S with
@@ -305,40 +328,41 @@ theorem predictCompiles_sound (S : Schema) (h : predictCompiles S = true) :
       cases hfc : fieldConflict S with
       | some p => obtain ⟨t, a, b⟩ := p; simp [hvc, hfc] at hok'
       | none =>
-        simp only [hvc, hfc] at hok'
-        refine ⟨by simp [checksPass, hvc, hfc], ?_⟩
-        split at hok'
-        · cases hok'
-        · split at hok'
+        cases hec : entrypointConflict S with
+        | some p => obtain ⟨a, b⟩ := p; simp [hvc, hfc, hec] at hok'
+        | none =>
+          simp only [hvc, hfc, hec] at hok'
+          refine ⟨by simp [checksPass, hvc, hfc, hec], ?_⟩
+          split at hok'
           · cases hok'
-          · rename_i _ h2
-            simp only [Bool.not_eq_true', Bool.and_eq_false_iff, not_or, Bool.not_eq_false] at h2
-            exact List.all_eq_true.mp h2.1
+          · split at hok'
+            · cases hok'
+            · rename_i _ h2
+              simp only [Bool.not_eq_true', Bool.not_eq_false] at h2
+              exact List.all_eq_true.mp h2
   obtain ⟨hc, hid⟩ := hcp
-  obtain ⟨d1, d2, d3, d4⟩ := no_conflict_names_distinct S hc
-  -- the cause list is empty: read off each component
+  obtain ⟨d1, d2, d3, d4, d5, d6, d7⟩ := no_conflict_names_distinct S hc
   simp only [compileCauses, List.append_eq_nil_iff] at hcauses
-  obtain ⟨⟨⟨⟨⟨c1, c2⟩, c3⟩, c4⟩, _⟩, _⟩ := hcauses
-  have n1 : nodupB (S.types.map fun t => variantName t.name) = true := by
-    cases hb : nodupB (S.types.map fun t => variantName t.name) <;> simp [hb] at c1; rfl
-  have n2 : nodupB (S.types.map fun t => conversionDefName t.name) = true := by
-    cases hb : nodupB (S.types.map fun t => conversionDefName t.name) <;> simp [hb] at c2; rfl
-  have n3 : nodupB (S.entrypoints.map fun e => itemFnName e.name) = true := by
-    cases hb : nodupB (S.entrypoints.map fun e => itemFnName e.name) <;> simp [hb] at c3; rfl
-  have n4 : (typesWithEdges S).all (fun t => conversionCallName t.name == conversionDefName t.name) = true := by
-    cases hb : (typesWithEdges S).all (fun t => conversionCallName t.name == conversionDefName t.name) <;>
-      simp [hb] at c4
+  obtain ⟨c1, _⟩ := hcauses
+  have hb : (S.entrypoints.any (fun e => paramBindingClash false e.params)
+      || S.types.any (fun t => t.edges.any fun e => paramBindingClash true e.params)) = false := by
+    cases hx : (S.entrypoints.any (fun e => paramBindingClash false e.params)
+      || S.types.any (fun t => t.edges.any fun e => paramBindingClash true e.params)) <;> simp [hx] at c1
     rfl
-  refine ⟨hok', hc, hid, (nodupB_iff _).mp n1, (nodupB_iff _).mp n2, (nodupB_iff _).mp n3, d1, d2, d3, d4, ?_⟩
-  intro t ht hne
-  have hm : t ∈ typesWithEdges S := by
-    simp only [typesWithEdges, List.mem_filter, Bool.not_eq_true', List.isEmpty_eq_false_iff]
-    exact ⟨ht, hne⟩
-  simpa using List.all_eq_true.mp n4 t hm
+  rw [Bool.or_eq_false_iff] at hb
+  refine ⟨hok', hc, hid, d1, d2, d3, d4, d5, d6, d7, fun t _ => conversion_names_agree t.name, ?_, ?_⟩
+  · intro e he
+    have := List.any_eq_false.mp hb.1 e he
+    simpa using this
+  · intro t ht e he
+    have := List.any_eq_false.mp hb.2 t ht
+    have h2 : (t.edges.any fun e => paramBindingClash true e.params) = false := by simpa using this
+    have := List.any_eq_false.mp h2 e he
+    simpa using this
 
-/-! Non-vacuity: the prediction is `true` on an ordinary schema (so the conclusions above are about
-something), the conflict checks refuse the documented collisions in the documented order, and the
-mangling functions behave as the repo's own expectations say. -/
+/-! Non-vacuity: the prediction is `true` on an ordinary schema and on the former witnesses of F-26,
+F-C26-2 and F-C26-6; the checks refuse the former witnesses of F-C26-4 and F-C26-5 and the documented
+collisions, in the documented order. -/
 def exampleSchema : Schema where
   entrypoints := [⟨"FrontPage".toList, []⟩, ⟨"User".toList, [⟨"name".toList, "String!".toList⟩]⟩]
   types := [
@@ -346,36 +370,52 @@ def exampleSchema : Schema where
     ⟨"User".toList, ["id".toList], [⟨"submitted".toList, [⟨"max".toList, "Int".toList⟩]⟩]⟩]
 
 example : predictCompiles exampleSchema = true := by decide
-example : itemFnName "type".toList = "type_".toList := by decide
-example : toLowerSnakeCase "HTTPRequest".toList = "httprequest".toList := by decide
-example : deriveSnake "HTTPRequest".toList = "h_t_t_p_request".toList := by decide
+/-- the former witnesses of F-26, F-C26-2 and F-C26-6 in one schema -/
+def formerWitnesses : Schema where
+  entrypoints := [⟨"A".toList, []⟩, ⟨"final".toList, []⟩]
+  types := [
+    ⟨"A".toList, ["x".toList], [⟨"e".toList, [⟨"match".toList, "Int".toList⟩]⟩, ⟨"yield".toList, []⟩]⟩,
+    ⟨"Do".toList, ["x".toList], [⟨"e".toList, []⟩]⟩,
+    ⟨"_".toList, ["x".toList], []⟩,
+    ⟨"UserID".toList, ["x".toList], [⟨"e".toList, []⟩]⟩]
+
+example : predictCompiles formerWitnesses = true := by decide
+example : conversionCallName "UserID".toList = "as_user_i_d".toList := by decide
+example : paramIdent "match".toList = "match_".toList ∧ paramIdent "_".toList = "__".toList := by decide
+example : itemFnName "type".toList = "type_".toList ∧ itemFnName "yield".toList = "yield_".toList := by decide
+example : stubCheck { entrypoints := [], types := [⟨"fOO".toList, ["x".toList], []⟩, ⟨"FOO".toList, ["x".toList], []⟩] }
+    = .conflictVertex "FOO".toList "fOO".toList := by decide
+example : stubCheck { entrypoints := [], types := [⟨"FOo".toList, ["x".toList], []⟩, ⟨"F_oo".toList, ["x".toList], []⟩] }
+    = .conflictVertex "FOo".toList "F_oo".toList := by decide
+example : stubCheck { entrypoints := [⟨"fooBar".toList, []⟩, ⟨"foo_bar".toList, []⟩], types := [⟨"A".toList, ["x".toList], []⟩] }
+    = .conflictEntrypoint "fooBar".toList "foo_bar".toList := by decide
 example : stubCheck { entrypoints := [], types := [⟨"Type".toList, [], []⟩, ⟨"Type_".toList, [], []⟩] }
     = .conflictVertex "Type".toList "Type_".toList := by decide
 example : stubCheck { entrypoints := [], types := [⟨"Type".toList, ["Type".toList], [⟨"Type_".toList, []⟩]⟩] }
     = .conflictField "Type".toList "Type_".toList "Type".toList := by decide
-example : checksPass { entrypoints := [], types := [⟨"FooBar".toList, [], []⟩, ⟨"foo_bar".toList, [], []⟩] }
-    = false := by decide
 
 end TF.C26
 
 #print axioms TF.C26.names_are_identifiers_property_fn
 #print axioms TF.C26.names_are_identifiers_type_edge_fn
-#print axioms TF.C26.names_are_identifiers_conversion
-#print axioms TF.C26.names_are_identifiers_variant_partial
-#print axioms TF.C26.variant_underscore_witness
-#print axioms TF.C26.names_are_identifiers_item_partial
-#print axioms TF.C26.item_reserved_keyword_witness
-#print axioms TF.C26.names_are_identifiers_parameter_partial
-#print axioms TF.C26.parameter_keyword_witness
-#print axioms TF.C26.parameter_type_id_witness
 #print axioms TF.C26.edge_fn_names_agree
+#print axioms TF.C26.names_are_identifiers_conversion
+#print axioms TF.C26.names_are_identifiers_variant
+#print axioms TF.C26.names_are_identifiers_item
+#print axioms TF.C26.names_are_identifiers_parameter
+#print axioms TF.C26.spliced_idents_usable
+#print axioms TF.C26.no_pretty_print_panic
+#print axioms TF.C26.parameter_type_id_witness
 #print axioms TF.C26.snake_collision_witness
 #print axioms TF.C26.checks_catch_collisions
+#print axioms TF.C26.checks_catch_variant_collisions
 #print axioms TF.C26.checks_catch_field_collisions
+#print axioms TF.C26.checks_catch_entrypoint_collisions
+#print axioms TF.C26.conversion_names_agree
+#print axioms TF.C26.variant_names_distinct
+#print axioms TF.C26.conversion_def_names_distinct
+#print axioms TF.C26.entrypoint_names_distinct
 #print axioms TF.C26.no_conflict_names_distinct
-#print axioms TF.C26.variant_names_distinct_partial
-#print axioms TF.C26.variant_collision_witness
-#print axioms TF.C26.entrypoint_collision_witness
-#print axioms TF.C26.conversion_names_agree_partial
-#print axioms TF.C26.conversion_mismatch_witness
+#print axioms TF.C26.parameter_binding_witnesses
+#print axioms TF.C26.import_collision_witnesses
 #print axioms TF.C26.predictCompiles_sound
